@@ -53,6 +53,9 @@ pub fn run(ctx: &Ctx) -> Outcome {
         (100, Some(1 << 20)),
         (1_000, Some(16 << 20)),
         (64 * 1024, Some(1 << 20)),
+        // degenerate tier sizes
+        (0, None),
+        (1, Some(1 << 20)),
     ];
     let reads_per_cfg: u64 = if ctx.thorough { 3_000_000 } else { 200_000 };
     let root = util::scratch_dir("c16");
